@@ -12,3 +12,8 @@ CHECKS["C01"] = ("exploration",
   "All operation histories up to length 4 over a 26-operation alphabet (and up to length 6 over a reduced one in the thorough tier) plus long random histories with nested with_inner_state sub-histories are executed against the real registry and a Vec<BTreeMap> model in lock-step; after every step every type is probed at every scope level. A counterexample is shrunk to a minimal history. Absence beyond the explored histories is not established.",
   "Trusts the reference model; type universe = 4 harness types with integer payload; borrow-conflict behaviour is C02's subject and not exercised here.",
   "DESIGN.md §6 C01")
+CHECKS["C02"] = ("exploration",
+  "model-based testing: exhaustive + proptest guard histories against a readers/writer automaton per (type, scope) cell; exhaustive generated tuple instantiations for the multi-borrow; nested holding histories against the C01 model with injected failures",
+  "Guard histories (acquire/release/read/write incl. panicking accessors, through &State and parent scopes) are enumerated exhaustively to a length bound on a shadowing layout and generated randomly over layouts; every request's grant/refusal and error kind is compared with a per-cell readers/writer automaton and every read with the last written value. try_get_multiple_mut is instantiated for all 117 tuples of arity 2-4 over 3 types and ~250 structured tuples of arity 5-8 over 8 types, each run against several registry layouts: duplicates/missing must err, otherwise references must be pairwise distinct, resolve to the innermost instance and writes must land only there. holding is exercised in nestings up to depth 3 (and deeper randomly) with registry sub-histories as bodies and failures injected at every level.",
+  "Aliasing that neither yields equal addresses nor misdirected writes is only visible to the ASan-instrumented fuzz target (thorough tier); soundness of the unsafe block for types outside the universe is not proven. A holding body never inserts the held type itself.",
+  "DESIGN.md §6 C02")
